@@ -17,17 +17,18 @@ PROPS = {
         explanation='Write side: every serialiser emits exactly ser(x) (Verus, verbatim bodies, any sink). Read side: Header::parse / parse_header (including the real per-type decode loop, desugared to an index loop) / parse_signature / PackageMetadata::parse / Package::parse consume exactly the serialised length and return a value whose serialisation equals the consumed bytes with the reserved intro bytes and signature padding zeroed (meta_parsed), unbounded in entry count, store size and payload; fixed-size leaves (intro, index entry, lead) are complete Kani proofs over all 16/96-byte inputs.',
     ),
     'C02': dict(
-        level='proof', verus=['c02_verify_sig', 'c03_digests', 'c14_writers'],
+        level='proof', verus=['c02_verify_sig', 'c03_digests', 'c14_writers', 'c01_parse'],
         trusted_base=[A_TOOLS, A_EXTRACT, 'A-PGP: a Verifying implementation is a function of the bytes and the signature it is shown (`accepts` uninterpreted); base64 decoding is a total function into Option; the pgp crate verifier and its key/subkey selection (signature/pgp.rs) are NOT under contract',
                       'A-HASH (via C03), A-LEAF-LINK: getters = K:k_getters_*, Header::write = unit c14_writers, verify_digests = unit c03_digests'],
         assumptions=['second sentence of C02 (any parsed-value-changing modification of a signed package is rejected) is a corollary only under A-PGP soundness and SHA-256 collision freedom: stated, not proved'],
         explanation='Verbatim body of Package::verify_signature: Ok ==> digests_ok and (OpenPGP array present ==> at least one signature and every one of them base64-decodes and is accepted over exactly ser(header)) and (otherwise ==> at least one of RSA/DSA/PGP present, each present one accepted over ser(header), resp. ser(header)++payload for the legacy tag); every signature-header shape and every accept/reject pattern at once.',
     ),
     'C03': dict(
-        level='proof', verus=['c03_digests', 'c14_writers'],
+        level='proof', verus=['c03_digests', 'c14_writers', 'c01_parse'],
         trusted_base=[A_TOOLS, A_EXTRACT, 'A-HASH: md5 / sha1 / sha2 / hex compute MD5 / SHA-1 / SHA-256 / lower-case hex; modelled as uninterpreted functions (hex injective)',
                       'A-LEAF-LINK: getter contracts (prelude/getters.rs) are the assertions of K:k_getters_*; DigestAlgorithm::from_u32 map is K:k_digest_algo; Header::write contract is proved in unit c14_writers'],
-        assumptions=['R11: != between &[u8]/Vec<u8>/&str/String is content inequality (std PartialEq)',
+        assumptions=['R11: != between &[u8]/Vec<u8>/&str/String is content inequality (std PartialEq); R44: zip().all(==) / zip().fold(0, acc | (x ^ y)) == 0 compare the common prefix only; R45: an uncontracted private helper is inlined at its call site',
+                     'the digests are computed over ser(parsed header): that this is the byte string of the file (reserved bytes aside) is the parse contract of unit c01_parse, which is therefore an obligation of C03 and C02 too (seed C03-e: a parser that normalises a count makes altered bytes verify)',
                      '`recorded` = the standard tag is present with its standard data type (MD5 binary; SHA1/SHA256 string; PAYLOADDIGEST string array together with PAYLOADDIGESTALGO int32)'],
         explanation='Verbatim body of Package::verify_digests: Ok <==> every recorded digest equals the digest recomputed from ser(header) / payload (both directions), Err is DigestMismatchError unless the payload algorithm is unsupported, unsupported algorithm => Err, no panic obligations left; all packages and all corruption positions at once because hashes are uninterpreted.',
     ),
